@@ -271,7 +271,7 @@ def run(res, proof):
         proof.problem('driver', str(e))
     # Singleton.__call__ as translated from the working tree (Gen/PySingleton.lean) against the real metaclass on request / drop histories
     from .pysingleton_stream import source_derived_pysingleton
-    source_derived_pysingleton(res, proof)
+    core.run_stream(source_derived_pysingleton, res, proof)
 
 
 def fix_disagreements(res, lines, impl, model):
